@@ -311,6 +311,9 @@ def kani_rows(pid, tier):
 VERUS_PROPS = {'C01', 'C02', 'C03', 'C04', 'C05', 'C06', 'C07', 'C08', 'C09', 'C10', 'C11', 'C14', 'C18', 'C19', 'C20'}
 
 
+SLOTS_PROPS = {'C14'}
+
+
 def uses_verus(pid):
     return pid in VERUS_PROPS
 
@@ -413,3 +416,25 @@ _k('K.path.mutation_barriers_arena', 'k_path_mutation_backward_barriers', ['C06'
 # ---- Arena API (C08)
 _k('K.api.collection_methods', 'k_api_collection_methods', ['C08', 'C07', 'C09'], 'each Arena collection method passes the documented (RunUntil, Stop) and maps the phase test to Some/None; collection_phase mapping (driver stubbed by a recorder)')
 _k('K.api.start_sweeping', 'k_api_start_sweeping', ['C08'], 'MarkedArena::start_sweeping = (Stop, AtSweep), ends Sweeping')
+
+# ---- builders (C18), allocation layout per instantiation (C17, C04), conversions (C19)
+_k('K.builder.abandon', 'k_builder_abandon', ['C18', 'C03'], 'GcBuilder dropped before / after the value was written: block released, no destructor, arena never sees it')
+_k('K.builder.complete', 'k_builder_complete', ['C18', 'C01', 'C04'], 'assume_init links exactly once in every phase, sets live, contents equal what was written')
+for _n, _t in (('u8', 'u8'), ('u16', 'u16'), ('u64', 'u64'), ('u128', 'u128 (align 16)'), ('a32', 'align 32, size 64'), ('a64', 'align 64'), ('zst', '()'), ('zst_a32', 'ZST align 32')):
+    _k('K.layout.inst.' + _n, 'k_layout_inst_' + _n, ['C17', 'C04'], 'sized %s: value pointer aligned, header immediately in front, as_ptr/from_ptr keep the address, dealloc through the real vtable with the exact base pointer and identical layout (Kani allocator model)' % _t)
+_k('K.layout.slice_kernel', 'k_layout_slice_kernel', ['C17', 'C04'], 'SliceWithHeader::layout for EVERY length (0 included) x 6 (header, element) pairs incl. zero-sized and over-aligned: aligned for header and elements, room for both; thin <-> fat reconstructs the length')
+for _n in ('u16_u32', 'unit_u128', 'u8_a32', 'a32_u8'):
+    _k('K.layout.inst.slice_' + _n, 'k_layout_inst_slice_' + _n, ['C17', 'C04', 'C18'], 'header+slice allocation with SYMBOLIC length: element / header pointers aligned, abandoning the builder releases the identical layout')
+_k('K.conv.identity_sized', 'k_conv_identity_sized', ['C19', 'C04'], 'erase, erase_kind, downgrade->upgrade, as_ptr/from_ptr, unsize! to dyn, cast: same address, same header/vtable, original value; destructed exactly once as the original type')
+_k('K.conv.thin_fat_slice', 'k_conv_thin_fat_slice', ['C17', 'C19'], 'GcSlice as_thin / as_fat / from_ptr_with_kind on real allocations: address kept, length reconstructed', complete='bounded: slice length <= 3')
+_k('K.conv.thin_fat_str', 'k_conv_thin_fat_str', ['C17', 'C19'], 'GcStr thin <-> fat', complete='bounded: "" and "abc"', tier='thorough')
+_k('K.builder.slice_abandon', 'k_slice_builder_abandon', ['C18', 'C11'], 'slice-with-header builder abandoned before the header / after the header / after k of n elements: destructs exactly header + initialised prefix, releases the block, arena never sees it', complete='bounded: n <= 3 elements (k symbolic)')
+_k('K.builder.write_slice_with', 'k_slice_builder_write_slice_with', ['C18', 'C11'], 'write_slice_with creates elements in order and completes with contents equal to what was written; one allocation registered', complete='bounded: n <= 3 elements')
+_k('K.builder.copy_wrong_length', 'k_slice_builder_copy_wrong_length_panics', ['C18'], 'copy_slice with a source of the wrong length panics before copying or linking (should_panic row)', complete='bounded: lengths <= 3')
+_k('K.zst.only_fitting', 'k_zst_cache_only_fitting_zsts', ['C19'], 'ZstCache<1|8|16>: the shared pointer is returned only for zero-sized T with align_of::<T>() <= MAX_ALIGN; returned pointers are aligned for T; shared allocations are ptr_eq to the cached pointer')
+_k('K.zst.pointer_alignment', 'k_zst_cache_pointer_alignment', ['C19', 'C17'], 'the cached pointer is aligned to MAX_ALIGN')
+# ---- DynamicRootSet (C14)
+_k('K.dynroot.stash_fetch', 'k_dynroot_stash_fetch', ['C14', 'C06', 'C01', 'C19'], 'stash in every phase x set colour x child colour: can_adopt(set, child) afterwards, slot holds the stashed pointer, fetch / try_fetch return the very object')
+_k('K.dynroot.foreign_rejected', 'k_dynroot_foreign_handle_rejected', ['C14', 'C20', 'C12'], 'contains / try_fetch reject a handle from a second set of the same arena and from a set of another arena')
+_k('K.dynroot.fetch_foreign_panics', 'k_dynroot_fetch_foreign_panics', ['C14'], 'fetch panics for a foreign handle (should_panic row)')
+_k('K.dynroot.handle_lifecycle', 'k_dynroot_handle_lifecycle', ['C14', 'C20'], 'clone counted, slot kept while a handle exists and vacated with the last one, handles that outlive their set touch nothing')
